@@ -191,7 +191,7 @@ func c05PartD(rc *core.RunCtx) {
 	}
 	var loop strings.Builder
 	loop.WriteString("r = []\nfor _k in range(" + itoa(c05dSteps) + "):\n    try:\n        r.append(next(w))\n")
-	for _, e := range []string{"StopIteration", "IndexError", "KeyError", "ValueError"} {
+	for _, e := range []string{"StopIteration", "IndexError", "KeyError", "ValueError", "LookupError", "Exception"} {
 		fmt.Fprintf(&loop, "    except %s:\n        r.append('%s')\n", e, e)
 	}
 	for _, p := range prods {
